@@ -2,6 +2,8 @@ package zap
 
 import (
 	"fmt"
+	"github.com/blevesearch/vellum"
+	"github.com/blevesearch/vellum/regexp"
 	"sort"
 
 	"github.com/RoaringBitmap/roaring/v2"
@@ -113,6 +115,33 @@ func sCheckThesauri(seg segment.Segment, sp *sSynSpec, except *roaring.Bitmap, e
 		}
 		e, err := it.Next()
 		vAssert(err == nil && e == nil, tag+"terms-end")
+		// the same listing through key ranges, without and with an automaton (match-all, and "x.*")
+		type rng struct{ start, end []byte }
+		for _, r := range []rng{{nil, []byte("x")}, {[]byte(""), []byte("y")}, {[]byte("x"), nil}, {[]byte("a"), []byte("x")}, {[]byte("x"), []byte("x\x00")}} {
+			for ai := 0; ai < 3; ai++ {
+				var au vellum.Automaton
+				accept := func(string) bool { return true }
+				if ai == 1 {
+					au = vAlwaysMatch()
+				} else if ai == 2 {
+					re, err := regexp.New("x.*")
+					vAssert(err == nil, tag+"regexp")
+					au = re
+					accept = func(t string) bool { return len(t) >= 1 && t[0] == 'x' }
+				}
+				rit := thes.AutomatonIterator(au, r.start, r.end)
+				for _, t := range wantTerms {
+					if (r.start != nil && t < string(r.start)) || (r.end != nil && t >= string(r.end)) || !accept(t) {
+						continue
+					}
+					e, err := rit.Next()
+					vAssert(err == nil && e != nil, tag+"range-term-missing")
+					vAssert(e.Term == t, tag+"range-term")
+				}
+				e, err := rit.Next()
+				vAssert(err == nil && e == nil, tag+"range-terms-end")
+			}
+		}
 		var pre segment.SynonymsList
 		var preIt segment.SynonymsIterator
 		for _, t := range append(append([]string{}, allTerms...), "unknown") {
